@@ -10,8 +10,10 @@ PROP = {'rule': 'rapid-generated cases. budget: (capacity 1-256 cores incl. frac
          'cgroup v1/v2, BE pod/container dirs, old BE cpuset, 1-3 rounds of budgets aimed at eligible / old+step / processor-count '
          'boundaries; modes all-protected and nearly-all-protected are generated on purpose; non-trivial = an LSE and an LSR pod with '
          'non-empty cpusets and target < eligible in some round. cfsQuota: (capacity, budget, current quota incl. unset and values at '
-         '+-1 of the bypass / step boundaries, cgroup v1/v2); non-trivial = quota rewritten from a set value. distinct = FNV-64 of the '
-         'full case.',
+         '+-1 of the bypass / step boundaries, cgroup v1/v2); non-trivial = quota rewritten from a set value. suppressHistory: the same '
+         'scenarios, 2-5 rounds of the real suppressBECPU on one plugin + one executor (cache started, no sleeping), NodeSLO policy '
+         'drawn per round (cfsQuota / cpuset / disabled / BECPUManager gate), load equal to or different from the previous round; '
+         'non-trivial = the history switches back to a policy it used before. distinct = FNV-64 of the full case.',
  'assumptions': ['pkg/koordlet/util/perf_group/perf_group_linux.go is replaced (build overlay only) by a cgo-free stand-in with the '
                  'same exported surface, because libpfm4 headers are not installed; no oracle touches perf counters',
                  'processor lists are what koordletutil.getProcessorInfos yields: non-empty, unique CPU ids, sorted by (node, socket, core, '
@@ -31,7 +33,8 @@ PROP = {'rule': 'rapid-generated cases. budget: (capacity 1-256 cores incl. frac
             'tests': [{'run': 'TestVerifC10Budget', 'quick': 3000, 'thorough': 20000},
                       {'run': 'TestVerifC10SetPolicy', 'quick': 3000, 'thorough': 20000},
                       {'run': 'TestVerifC10AdjustCPUSet', 'quick': 2500, 'thorough': 8000},
-                      {'run': 'TestVerifC10CfsQuota', 'quick': 2000, 'thorough': 8000}]}],
+                      {'run': 'TestVerifC10CfsQuota', 'quick': 2000, 'thorough': 8000},
+                      {'run': 'TestVerifC10SuppressHistory', 'quick': 1000, 'thorough': 6000}]}],
  'manifest': {'technique': 'property-based testing (rapid): generated node topologies / pod sets / annotations / usage metrics with an '
                            'independent restatement of the budget formula (big.Rat), a metamorphic monotonicity relation, and set-validity '
                            '+ count oracles on the cpuset / cfs quota actually written under a temporary cgroup root',
@@ -42,7 +45,9 @@ PROP = {'rule': 'rapid-generated cases. budget: (capacity 1-256 cores incl. frac
                       'against a temp cgroup tree (v1/v2, kubelet policy none/static, several rounds) and every written cpuset must avoid '
                       'LSE-owned, node-reserved and system-exclusive CPUs, stay within min(max(2,ceil(budget)), old+step), hit that target '
                       'when enough eligible CPUs exist, and the call must not panic even when no CPU is eligible; adjustByCfsQuota must '
-                      'write budget x period floored at the minimum quota, modulo the documented bypass and step limit. Exploration, not '
+                      'write budget x period floored at the minimum quota, modulo the documented bypass and step limit; multi-round '
+                      'histories of suppressBECPU with policy switches must leave, after every round, the mode-appropriate quota / '
+                      'cpuset and the recovered value (-1 quota, every unprotected CPU) for the mode not in use. Exploration, not '
                       'proof: absence of violations over the sampled cases.',
               'note': 'perf_group cgo file replaced by a stub at build time; StatesInformer / MetricCache are minimal fakes (only '
                       'GetAllPods, GetNodeTopo, Get(NodeCPUInfoKey)); the real CgroupReader and ResourceUpdateExecutor run against a temp '
